@@ -84,6 +84,11 @@ type ClientCommandSession struct {
 	channel   int
 
 	disposeOnce sync.Once
+
+	// connMu protects conn and connDisposed: the handshake goroutine of doContext may still be connecting when
+	// Start times out and disposes the session
+	connMu       sync.Mutex
+	connDisposed bool
 }
 
 type ModClientCommandSessionOption func(option *ClientCommandSessionOption)
@@ -335,9 +340,18 @@ func (session *ClientCommandSession) connect(rawUrl string) (err error) {
 	if err != nil {
 		return err
 	}
-	session.conn = connection.New(conn, func(option *connection.Option) {
+	c := connection.New(conn, func(option *connection.Option) {
 		option.ReadBufSize = readBufSize
 	})
+	session.connMu.Lock()
+	if session.connDisposed {
+		// Start already gave up (timeout) and disposed the session, nobody would close this conn any more
+		session.connMu.Unlock()
+		_ = c.Close()
+		return nazaerrors.Wrap(base.ErrSessionNotStarted)
+	}
+	session.conn = c
+	session.connMu.Unlock()
 	Log.Debugf("[%s] < tcp connect. laddr=%s, raddr=%s", session.uniqueKey, conn.LocalAddr().String(), conn.RemoteAddr().String())
 
 	session.observer.OnConnectResult()
@@ -618,11 +632,15 @@ func (session *ClientCommandSession) dispose(err error) error {
 	var retErr error
 	session.disposeOnce.Do(func() {
 		Log.Infof("[%s] lifecycle dispose rtsp ClientCommandSession. session=%p, err=%+v", session.uniqueKey, session, err)
-		if session.conn == nil {
+		session.connMu.Lock()
+		session.connDisposed = true
+		conn := session.conn
+		session.connMu.Unlock()
+		if conn == nil {
 			retErr = base.ErrSessionNotStarted
 			return
 		}
-		retErr = session.conn.Close()
+		retErr = conn.Close()
 	})
 	return retErr
 }
